@@ -220,8 +220,8 @@ func firstEvent(p *edt.Path) string {
 
 // errRulesFor runs ERR-(i)/(ii) restricted to the given module-relative packages.
 func errRulesFor(run *report.Run, p *load.Program, pkgs ...string) {
-	ri := run.Rule("ERR-i", "a return dominated by the failure edge of an error/length test reports failure", 10).RequireControl(0)
-	rii := run.Rule("ERR-ii", "no pointer/slice/bool result escapes together with an error", 5).RequireControl(0)
+	ri := run.Rule("ERR-i", "a return dominated by the failure edge of an error/length test reports failure", 3).RequireControl(0)
+	rii := run.Rule("ERR-ii", "no pointer/slice/bool result escapes together with an error", 1).RequireControl(0)
 	want := map[string]bool{}
 	for _, k := range pkgs {
 		want[k] = true
